@@ -991,7 +991,11 @@ class Engine:
         op = ops.get(type(e.op))
         if op is None:
             raise OutOfSubset("binary operator %s" % type(e.op).__name__)
-        return self.bind(self.eval_list(st, [e.left, e.right]), lambda s, vs: self.prim(s, P.binop, op, vs[0], vs[1]))
+        def apply(s, vs):
+            if op == "+" and self.B.is_bytes_token(s, vs[0]) and self.B.is_bytes_token(s, vs[1]):
+                return self.ok(s, self.B.bytes_token_concat(self, s, vs[0], vs[1]))
+            return self.prim(s, P.binop, op, vs[0], vs[1])
+        return self.bind(self.eval_list(st, [e.left, e.right]), apply)
 
     def ev_BoolOp(self, st, e):
         is_and = isinstance(e.op, ast.And)
